@@ -632,6 +632,75 @@ def r6(k: Kit) -> None:
                   k.loc(fi, n))
 
 
+def r7(k: Kit) -> None:
+    """cert-authority lines authorise certificates, not the CA key."""
+    rep = k.rep
+    idx = k.idx
+    rep.rule('C16.R7', 'SSHAllowedSigners: __init__, load and validate '
+             'evaluated on lists of a plain line and a cert-authority line '
+             'for the same key: validate(key, ca=False) is truthy iff a plain '
+             'line lists the key, validate(key, ca=True) iff a '
+             'cert-authority line does - a CA line does not authorise '
+             'signatures made with the CA key itself, nor a plain line '
+             'certificates issued by that key')
+    cls = idx.cls('sshsig.SSHAllowedSigners')
+    init = cls.methods['__init__']
+    load = cls.methods['load']
+    val = cls.methods['validate']
+    bad = None
+    n = 0
+    for lines in (('P',), ('C',), ('P', 'C'), ('C', 'P'), ('X',), ('X', 'C')):
+        for ca in (False, True):
+            for match in (True, False):
+                n += 1
+                env0 = {}
+                for ln in ('P', 'C', 'X'):
+                    env0[f'E-{ln}.options'] = \
+                        {'cert-authority': True} if ln == 'C' else {}
+                    env0[f'E-{ln}.key'] = Obj('OTHER' if ln == 'X' else 'K')
+
+                def on_call(nm, args, env, match=match):
+                    if nm == 'SSHAllowedSignersEntry':
+                        return Obj('E-' + args[0])
+                    if nm.endswith('.match_options'):
+                        return match
+                    return Obj('x')
+                try:
+                    e1 = dict(env0)
+                    e1['allowed_signers'] = None
+                    o1 = evaluate(idx, init.module, init.node.body, {}, e1,
+                                  on_call)
+                    fields = {nm: v for nm, v in o1.stores
+                              if nm.startswith('self.')}
+                    e2 = dict(env0)
+                    e2['allowed_signers'] = '\n'.join(lines)
+                    o2 = evaluate(idx, load.module, load.node.body, fields,
+                                  e2, on_call)
+                    for nm, v in o2.stores:
+                        if nm.startswith('self.'):
+                            fields[nm] = v
+                    e3 = dict(env0)
+                    e3.update(key=Obj('K'), principal='alice',
+                              namespace='ns', ca=ca)
+                    o3 = evaluate(idx, val.module, val.node.body, fields, e3,
+                                  on_call)
+                except NotEvaluable as exc:
+                    rep.error('C16.R7', key(val, 'not-evaluable'), str(exc))
+                    return
+                got = o3.kind == 'return' and o3.value is True
+                want = match and (('C' in lines) if ca else ('P' in lines))
+                if got != want and bad is None:
+                    bad = (f'lines {lines} (P plain, C cert-authority, X '
+                           f'other key), ca={ca}, options match={match}: '
+                           f'validate returned {o3.value!r}, expected {want}'
+                           + (': a cert-authority line authorises a '
+                              'signature made directly with the CA key'
+                              if got and not ca else ''))
+    rep.count('eval.allowed_signers_states', n)
+    rep.check(bad is None, 'C16.R7', key(val, 'plain and CA lines kept apart'),
+              f'{n} states', str(bad), val.loc(val.node))
+
+
 def run(idx, rep, tier):
     k = Kit(idx, rep)
     rep.assumptions += NOT_DECIDED
@@ -642,3 +711,4 @@ def run(idx, rep, tier):
     r4(k)
     r5(k)
     r6(k)
+    r7(k)
